@@ -737,6 +737,18 @@ class SolverError(Exception):
     pass
 
 
+def child_limits():
+    """run in the child before exec: die with the parent, and cap the address space (a runaway solver
+    must end as 'unknown', not take the machine down)"""
+    try:
+        import ctypes, signal, resource
+        ctypes.CDLL("libc.so.6").prctl(1, signal.SIGKILL)  # PR_SET_PDEATHSIG
+        gb = int(os.environ.get("VERIF_SOLVER_MEM_GB", "8"))
+        resource.setrlimit(resource.RLIMIT_AS, (gb << 30, gb << 30))
+    except Exception:
+        pass
+
+
 class Solver:
     """One long-lived solver process; queries are batched with push/pop."""
 
@@ -753,7 +765,7 @@ class Solver:
         else:
             raise ValueError(kind)
         self.p = subprocess.Popen(cmd, stdin=subprocess.PIPE, stdout=subprocess.PIPE,
-                                  stderr=subprocess.STDOUT, text=True, bufsize=1)
+                                  stderr=subprocess.STDOUT, text=True, bufsize=1, preexec_fn=child_limits)
         self.declared = {}
         self.abstract_tried = 0
         self.abstract_closed = 0
